@@ -350,6 +350,15 @@ class Session:
         from graphslam.pose.se2 import PoseSE2
         from graphslam.pose.se3 import PoseSE3
         reg = getattr(g, '_g2o_params', None) or {}
+        # (non-finite numbers: whether a text format can carry them is left open - a refusal of such a graph is not judged)
+        for v in g._vertices:
+            if not np.all(np.isfinite(np.asarray(v.pose, dtype=float))):
+                return False
+        for e in g._edges:
+            if type(e) in (EdgeOdometry, EdgeLandmark):
+                for x in (e.information, e.estimate, getattr(e, 'offset', None)):
+                    if x is not None and not np.all(np.isfinite(np.asarray(x, dtype=float))):
+                        return False
         for e in g._edges:
             if type(e) is EdgeOdometry:
                 if not isinstance(e.estimate, (PoseSE2, PoseSE3)):
